@@ -306,6 +306,26 @@ func genLayout(t *rapid.T, nested bool) Layout {
 	for j, k := 0, rapid.IntRange(0, 2).Draw(t, "nextra"); j < k; j++ {
 		l.Extra = append(l.Extra, "/nowhere/"+genRelPath(t, 3))
 	}
+	if oneIn(t, 4, "lookalike") {
+		// a path under no root whose tail coincides with a file of a local root, behind a
+		// prefix that is not a .../src (or .../pkg/mod) directory
+		var tails []string
+		for _, f := range l.Goroot {
+			tails = append(tails, f.Rel)
+		}
+		for _, g := range l.Gopaths {
+			for _, f := range g.Src {
+				tails = append(tails, f.Rel)
+			}
+			for _, f := range g.Mod {
+				tails = append(tails, f.Rel)
+			}
+		}
+		if len(tails) > 0 {
+			pre := rapid.SampledFrom([]string{"/a", "/x/y", "/ab", "/opt/copy/of", "/s"}).Draw(t, "lookalikePrefix")
+			l.Extra = append(l.Extra, pre+"/"+rapid.SampledFrom(tails).Draw(t, "lookalikeTail"))
+		}
+	}
 	l.TestMain = oneIn(t, 4, "testmain")
 	return l
 }
